@@ -54,6 +54,7 @@ type Case struct {
 	Hex    string `json:"hex,omitempty"`    // explicit stream
 	Ops    []TOp  `json:"ops,omitempty"`    // ticket history
 	Sub    uint64 `json:"sub,omitempty"`    // sub-seed of the case generator
+	Fast   bool   `json:"fast,omitempty"`   // split cases: client key pair with a short private exponent
 	Str    string `json:"str,omitempty"`
 }
 
@@ -78,7 +79,19 @@ type env struct {
 	respC   map[string][]byte
 	dmu     sync.Mutex
 	rmu     sync.Mutex
-	pk      *splitPkts
+	full    *keyset // the client key pair ParseArgs drew (1536 random bits)
+	fast    *keyset // a second client key pair with a 48-bit private exponent (cheap modexp; bulk split enumeration)
+}
+
+// keyset is one client UniformDH key pair (as ParseArgs result) with the session secret the
+// reference server derives for it and the two packets the split cases send.
+type keyset struct {
+	ca   any
+	priv []byte
+	pub  []byte
+	seed []byte
+	pk   *splitPkts
+	name string
 }
 
 func curHour() int64 { return time.Now().Unix() / 3600 }
@@ -146,6 +159,19 @@ func newEnv(r *vlib.Run, d *vlib.Driver, seed uint64) *env {
 	e.srvPriv = rng.Bytes(dhSize)
 	e.srvPub = vlib.UnHex(e.call("dh.pub %s", vlib.Hex(e.srvPriv))[1])
 	e.dhSeed = vlib.UnHex(e.call("dh.seed %s %s", vlib.Hex(e.srvPriv), vlib.Hex(e.cliPub))[1])
+	e.full = &keyset{ca: e.ca, priv: e.cliPriv, pub: e.cliPub, seed: e.dhSeed, name: "full"}
+	// second key pair: the tape is steered so that ParseArgs draws a private key with 48 random bits
+	fp := make([]byte, dhSize)
+	copy(fp[dhSize-6:], rng.Bytes(6))
+	e.tape.Steer = append([]byte(nil), fp...)
+	fca, err := e.cf.ParseArgs(pwArgs(e.pw))
+	must(err)
+	if len(e.tape.Steer) != 0 {
+		must(fmt.Errorf("ParseArgs did not draw the steered private key"))
+	}
+	e.fast = &keyset{ca: fca, priv: fp, name: "fast"}
+	e.fast.pub = vlib.UnHex(e.call("dh.pub %s", vlib.Hex(fp))[1])
+	e.fast.seed = vlib.UnHex(e.call("dh.seed %s %s", vlib.Hex(e.srvPriv), vlib.Hex(e.fast.pub))[1])
 	return e
 }
 
@@ -360,15 +386,27 @@ func main() {
 		}
 		r.Count("kind", "corpus")
 	}
-	e.helloCases()
-	e.passwordCases()
-	e.splitCases()
-	e.hsParseCases()
-	e.noCompleteCases()
-	e.dataCases()
-	e.garbageCases()
-	e.flipCases()
-	e.ticketCases()
+	// C15_ONLY=<kind,...> restricts a development run to some sections (never set by ./check)
+	only := os.Getenv("C15_ONLY")
+	want := func(k string) bool { return only == "" || strings.Contains(","+only+",", ","+k+",") }
+	if only != "" {
+		r.Notes["restricted_to"] = only
+	}
+	sections := []struct {
+		name string
+		run  func()
+	}{
+		{"hello", e.helloCases}, {"password", e.passwordCases}, {"split", e.splitCases},
+		{"hs-parse", e.hsParseCases}, {"nocomplete", e.noCompleteCases}, {"data", e.dataCases},
+		{"garbage", e.garbageCases}, {"flip", e.flipCases}, {"tickets", e.ticketCases},
+	}
+	for _, s := range sections {
+		if want(s.name) {
+			t0 := time.Now()
+			s.run()
+			r.Notes["section_wall_s_"+s.name] = fmt.Sprintf("%.1f", time.Since(t0).Seconds())
+		}
+	}
 	e.cleanup()
 	r.Finish()
 }
